@@ -13,8 +13,11 @@ same state components, same handlers, same order of checks.
   (`dialAns`, `openAns`) and the calls made are recorded in `State.calls`.
 * `debug_assert!`s are an explicit `panicked` flag (the state is otherwise left as the code leaves
   it before the assertion).
-* Ghost components (`log`, `issued`, `cancelSent`, `cancelDone`, `sentOn`, `wire`, `calls`) are
-  never read by the handlers.
+* Ghost components (`log`, `issued`, `cancelSent`, `cancelDone`, `opened`, `sentOn`, `wire`,
+  `calls`) are never read by the handlers. `opened` records every substream id `open_substream`
+  handed out together with the request it was opened for, `sentOn` every substream on which a
+  request future was started (the future writes the request once), `wire` what the responder wrote
+  on a substream.
 
 Core Lean only (the model driver links against this file).
 -/
@@ -127,6 +130,7 @@ structure State where
   issued : List Ctx := []
   cancelSent : List Rid := []
   cancelDone : List Rid := []
+  opened : List (Sid × Ctx) := []
   sentOn : List (Sid × Ctx) := []
   wire : List (Sid × Payload) := []
 
@@ -181,7 +185,8 @@ def onSendRequest (s : State) (peer : Peer) (rid : Rid) (request : Payload) (opt
       else
         { s with
           peers := alModify peer (fun c => { c with active := setInsert rid c.active }) s.peers
-          pendingOutbound := (sid, ⟨peer, rid, request⟩) :: (alTake sid s.pendingOutbound).2 }
+          pendingOutbound := (sid, ⟨peer, rid, request⟩) :: (alTake sid s.pendingOutbound).2
+          opened := s.opened ++ [(sid, ⟨peer, rid, request⟩)] }
     | .error e => emit s (.requestFailed peer rid (.rejected (.ofSubErr e)))
 
 /-- The loop of `on_connection_established` over the requests that waited for the dial: returns
@@ -199,6 +204,15 @@ def openAll (peer : Peer) (openAns : Nat → Except SubErr Sid) :
       openAll peer openAns rest (i + 1) active outbound (failed ++ [(c.rid, e)])
         (calls ++ [.openSubstream peer (.error e)])
 
+/-- Ghost: the substreams the loop of `on_connection_established` opens, with their requests
+(`openAll` inserts exactly these into `pending_outbound`). -/
+def openedBy (openAns : Nat → Except SubErr Sid) : List Ctx → Nat → List (Sid × Ctx)
+  | [], _ => []
+  | c :: rest, i =>
+    match openAns i with
+    | .ok sid => (sid, c) :: openedBy openAns rest (i + 1)
+    | .error _ => openedBy openAns rest (i + 1)
+
 def reportFailures (peer : Peer) : List (Rid × SubErr) → State → State
   | [], s => s
   | (rid, e) :: rest, s =>
@@ -213,7 +227,8 @@ def onConnectionEstablished (s : State) (peer : Peer) (openAns : Nat → Except 
     | (none, _) => { s with peers := (peer, {}) :: s.peers }
     | (some ctxs, dials) =>
       let r := openAll peer openAns ctxs 0 [] s.pendingOutbound [] s.calls
-      let s := { s with pendingDials := dials, pendingOutbound := r.2.1, calls := r.2.2.2 }
+      let s := { s with pendingDials := dials, pendingOutbound := r.2.1, calls := r.2.2.2,
+                        opened := s.opened ++ openedBy openAns ctxs 0 }
       -- the peer is only registered if a substream could be opened to it
       let s := if r.1.isEmpty then s else { s with peers := (peer, { active := r.1 }) :: s.peers }
       reportFailures peer r.2.2.1 s
@@ -359,7 +374,8 @@ def step (s : State) : Input → State
   | .responderWrites sid response => { s with wire := s.wire ++ [(sid, response)] }
 
 /-- What the environment may do in state `s` (the hypotheses of all theorems):
-* substream ids handed out by `open_substream` are fresh (shared `fetch_add` counter);
+* substream ids handed out by `open_substream` are fresh (shared `fetch_add` counter): not the id
+  of a substream opened before (`opened`; in particular not one still waited for or in use);
 * a `SubstreamOpened`/`SubstreamOpenFailure` for an outbound substream names the peer the
   substream was opened to;
 * only futures that exist complete; a request future completes with `Canceled` only if its
@@ -367,9 +383,11 @@ def step (s : State) : Input → State
   future's substream. -/
 def Allowed (s : State) : Input → Prop
   | .send _ _ _ _ openAns =>
-    ∀ sid, openAns = .ok sid → alFind sid s.pendingOutbound = none ∧ ∀ e ∈ s.sentOn, e.1 ≠ sid
+    ∀ sid, openAns = .ok sid →
+      alFind sid s.pendingOutbound = none ∧ (∀ e ∈ s.sentOn, e.1 ≠ sid) ∧ (∀ e ∈ s.opened, e.1 ≠ sid)
   | .connectionEstablished _ openAns =>
-    (∀ i sid, openAns i = .ok sid → alFind sid s.pendingOutbound = none ∧ ∀ e ∈ s.sentOn, e.1 ≠ sid) ∧
+    (∀ i sid, openAns i = .ok sid →
+      alFind sid s.pendingOutbound = none ∧ (∀ e ∈ s.sentOn, e.1 ≠ sid) ∧ (∀ e ∈ s.opened, e.1 ≠ sid)) ∧
     (∀ i j sid, openAns i = .ok sid → openAns j = .ok sid → i = j)
   | .outboundSubstream peer sid => ∀ ctx, alFind sid s.pendingOutbound = some ctx → ctx.peer = peer
   | .futureDone f res =>
@@ -408,6 +426,28 @@ def dialCount (s : State) (r : Rid) : Nat := (s.pendingDials.map (fun e => ctxCo
 def activeCount (s : State) (r : Rid) : Nat := (s.peers.map (fun e => e.2.active.count r)).sum
 
 def issuedCount (s : State) (r : Rid) : Nat := ctxCount r s.issued
+
+/-- Entries (substream, request) for request `r`. -/
+def pairCount (r : Rid) (l : List (Sid × Ctx)) : Nat := l.countP (fun e => e.2.rid == r)
+
+/-- Substreams ever opened for request `r`. -/
+def openedCount (s : State) (r : Rid) : Nat := pairCount r s.opened
+
+/-- Request futures ever started for request `r` (each writes the request once on its substream). -/
+def sentCount (s : State) (r : Rid) : Nat := pairCount r s.sentOn
+
+def Event.receivedFor (r : Rid) : Event → Bool
+  | .requestReceived _ rid _ => rid == r
+  | _ => false
+
+/-- Number of `RequestReceived` events for the inbound request `r`. -/
+def receivedCount (log : List Event) (r : Rid) : Nat := log.countP (Event.receivedFor r)
+
+/-- Inbound requests still being read. -/
+def inReadCount (s : State) (r : Rid) : Nat := s.pendingInboundRequests.countP (fun f => f.rid == r)
+
+/-- Inbound requests waiting for the user's answer. -/
+def awaitCount (s : State) (r : Rid) : Nat := s.pendingOutboundResponses.countP (fun f => f.rid == r)
 
 /-- The environment owes the protocol nothing: no dial, no substream open, no request future. -/
 def Quiescent (s : State) : Prop :=
